@@ -311,7 +311,7 @@ pub fn run(args: &[String]) -> i32 {
     }
 
     let mut totals = Acc::default();
-    let mut merge = |accs: Vec<Acc>, totals: &mut Acc, rep: &mut Report| {
+    let merge = |accs: Vec<Acc>, totals: &mut Acc, rep: &mut Report| {
         for a in accs {
             rep.vios.merge(a.vios);
             totals.values += a.values;
